@@ -132,7 +132,10 @@ func (x *Exec) atLoopHeader(st *State, fr *Frame, h *ssa.BasicBlock, ord int, pr
 	framed := map[string]*footprint{}
 	if len(spec.Assigns) > 0 {
 		for name := range ws.heaps {
-			if fp := x.footprintFor(env, spec.Assigns, name); fp != nil {
+			if strings.HasPrefix(name, "IT$") {
+				continue // the iteration ghost of a range-over-map loop is the loop's own state
+			}
+			if fp :=x.footprintFor(env, spec.Assigns, name); fp != nil {
 				framed[name] = fp
 			}
 		}
